@@ -305,7 +305,14 @@ def fam_interrupt(E, real=False):
         log('a', 'interrupt', 'c2', v.is_alive)
         v.interrupt('c2')
 
+    def shut_down(event):
+        # "first one done shuts everything down": interrupting a finished process - also the one
+        # whose completion is being announced - is ignored
+        log('cb', 'shut-down')
+        box['v'].interrupt('shut-down')
+
     box['v'] = env.process(victim())
+    box['v'].callbacks.append(shut_down)
     env.process(attacker())
     env.process(attacker2())
     out = run_env(E, env, log)
@@ -313,6 +320,13 @@ def fam_interrupt(E, real=False):
     E.prove(bad is None, 'run-ends-normally', bad)
     if out.exc is not None:
         return
+    E.prove(len(log.of('cb', 'shut-down')) == 1, 'callback-invoked-exactly-once')
+    try:
+        box['v'].interrupt('after the run')
+        late = None
+    except BaseException as err:        # noqa
+        late = err
+    E.prove(late is None, 'interrupt-of-a-finished-process-is-ignored', ('raised %r', late))
     end = log.first('v', 'end')
     if E.prove(end is not None, 'victim-finishes'):
         E.prove(EQ(end[2], d1 + d2), 'interrupts-do-not-change-the-schedule',
